@@ -10,6 +10,13 @@
 #include "vf.h"
 #include "ref.h"
 #include "provider_stub.h"
+#ifdef PROP_C18
+#include "c18b_gen.h"
+static jwt_builder_t *b2;
+static jwt_builder_t b2_before;
+static jwk_item_t key_before;
+static unsigned char oct_before[4];
+#endif
 
 json_t *vf_parse(unsigned call_no, const char *buf, size_t len, size_t flags) { return NULL; }
 
@@ -282,6 +289,29 @@ int main(void)
 	pcopy = json_deep_copy(b->c.payload);
 	snap_cfg(&before, b);
 
+#ifdef PROP_C18
+	vf_cls = VF_CLS_BUILDER;
+	b2 = jwt_builder_new();
+	__CPROVER_assume(b2 != NULL);
+	vf_cls = VF_CLS_JWT;
+	jwt_builder_setkey(b2, cfg_alg, have_key ? &key : NULL);
+	b2->error = nondet_int();
+	b2_before = *b2;
+	/* fields the library has no business writing get arbitrary values, so that a write of any
+	 * constant is visible */
+	key.error = nondet_int();
+	key.error_msg[0] = nondet_char();
+	key.use = (jwk_pub_key_use_t)nondet_uint();
+	key.key_ops = (jwk_key_op_t)nondet_uint();
+	key_before = key;
+	{
+		unsigned i;
+		for (i = 0; i < 4; i++)
+			oct_before[i] = octkey[i] = nondet_uchar();
+	}
+	c18_havoc();
+	c18_snapshot();
+#endif
 	/* ================================================================= the call */
 	out = jwt_builder_generate(b);
 	/* ================================================================= */
@@ -290,6 +320,23 @@ int main(void)
 	PROP(same_cfg(&before, b), "C10/C13: generate leaves key, alg, flags, offsets and callback of the builder unchanged");
 	PROP(vj_equal(hcopy, b->c.headers) && vj_equal(pcopy, b->c.payload),
 	     "C10/C13: generate (and its callback) leave the builder's headers and claims unchanged");
+#endif
+
+#ifdef PROP_C18
+	c18_check();
+	PROP(b2->c.alg == b2_before.c.alg && b2->c.key == b2_before.c.key && b2->c.payload == b2_before.c.payload &&
+	     b2->c.headers == b2_before.c.headers && b2->c.claims == b2_before.c.claims && b2->c.cb == b2_before.c.cb &&
+	     b2->c.exp == b2_before.c.exp && b2->c.nbf == b2_before.c.nbf && b2->error == b2_before.error &&
+	     b2->error_msg[0] == b2_before.error_msg[0], "C18: another builder object is not touched by the call");
+	PROP(key.pem == key_before.pem && key.provider == key_before.provider && key.oct.key == key_before.oct.key &&
+	     key.oct.len == key_before.oct.len && key.is_private_key == key_before.is_private_key && key.bits == key_before.bits &&
+	     key.error == key_before.error && key.kty == key_before.kty && key.alg == key_before.alg && key.kid == key_before.kid &&
+	     key.json == key_before.json && key.curve[0] == key_before.curve[0] && key.error_msg[0] == key_before.error_msg[0],
+	     "C18: the shared key item is only read");
+	PROP(octkey[0] == oct_before[0] && octkey[1] == oct_before[1] && octkey[2] == oct_before[2] && octkey[3] == oct_before[3],
+	     "C18: shared key material is only read");
+	REACH(out != NULL && pv_hmac_calls + pv_pem_calls == 1, "signed token generated");
+	REACH(out == NULL, "generate failed");
 #endif
 
 #ifdef PROP_C13
